@@ -698,10 +698,9 @@ reprocess:
 			break;
 			}
 		case '%':
-			if (location + 1 > max_len) {
-				return max_len;
-			}
-			serialize[location++] = '%';
+			/* nothing is stored for "%%" (the decoder reads nothing for it);
+			 * step over its second '%' so it does not start a conversion */
+			format++;
                         sformat_length = 0;
                         sformat_precision = QB_FALSE;
 			break;
